@@ -856,8 +856,17 @@ void Parser::parse_patch_body(Patch& patch)
 {
     if (patch.format == Format::Unified || patch.format == Format::Git)
         parse_unified_patch(patch);
-    else if (patch.format == Format::Context)
+    else if (patch.format == Format::Context) {
         parse_context_patch(patch);
+
+        // The range of the new file is not seen when parsing the header of a context diff, so it is
+        // only here that a hunk which leaves nothing behind tells us that the file is being removed.
+        if (patch.operation == Operation::Change && !patch.hunks.empty()) {
+            const auto& new_range = patch.hunks.front().new_file_range;
+            if (new_range.start_line == 0 && new_range.number_of_lines == 0)
+                patch.operation = Operation::Delete;
+        }
+    }
     else if (patch.format == Format::Normal)
         parse_normal_patch(patch);
     else
